@@ -271,6 +271,11 @@ def run(ctx):
         gid += 1                       # the upper end of the pixel range in every run, not only by chance
         _one_file(ctx, L.large_config(rng, npix, chunk, where), tid, gid, events, cfgs)
         tid += 1
+    for shape, where in (((71, 71, 71, 1), 'bytesio'), ((1, 350_000, 1, 1), 'file_path')) + (
+            (((40, 50, 40, 40), 'file_str'),) if ctx.thorough else ()):
+        gid += 1                       # images of > 349 525 bins: each image array is written in more than one piece
+        _one_file(ctx, L.large_image_config(rng, shape, where), tid, gid, events, cfgs)
+        tid += 1
     if ctx.thorough:
         # the extreme corner of the quantifier: 1e5 pixels written one at a time
         cfg = L.random_config(rng, thorough=True, small=True, force=['pix'])
